@@ -1,5 +1,6 @@
 import TextxVerif.Wire
 import TextxVerif.Out.GenFile
+import TextxVerif.Out.GenFileOps
 /-! Driver for the gen_file / export crash model (C31).
 op:
   {"op":"history","algo":"new"|"pinned",
@@ -8,6 +9,10 @@ op:
   (state of the run's own target and temporary sibling after each run, starting from an empty directory)
   optional "paths":[n…] (histories over several output files): every step also carries
      "all":[{"target":…,"tmp":b}…] — the state of every listed output file after the run, in the order given
+  "algo":"ops" steps the history with the operation-level program (`exportOps`, = "new" by `C31_ops_summary`)
+  optional "ops":true: every step also carries "ops": null (skipped) | {"n":k,"last":op,"midSame":b,"lastSame":b} — the
+     number of primitive operations of the export, the last one (["replace",src,dst] | ["remove",p], p = "out:n" |
+     "tmp:n"), whether the run's output file is as before the run after each operation but the last, and after the last
 -/
 open Lean Wire GenFile
 
@@ -46,6 +51,27 @@ def outcomeStr : Outcome → String
   | .skipped => "skipped"
   | .failed => "failed"
 
+def pathStr : Path → String
+  | .out n => s!"out:{n}"
+  | .tmp n => s!"tmp:{n}"
+
+def opJson : Op → Json
+  | .openW t => Json.arr #["open", pathStr t]
+  | .append t (.full _) => Json.arr #["w", pathStr t]
+  | .append t (.part _) => Json.arr #["wp", pathStr t]
+  | .replace s d => Json.arr #["replace", pathStr s, pathStr d]
+  | .remove t => Json.arr #["remove", pathStr t]
+
+/-- summary of one run's operation program: number of operations, the last one, whether every operation
+before the last has an effect on the temporary sibling only ("midSame": the output file is untouched in
+every intermediate state) and whether the output file is as before after the last ("lastSame") -/
+def opsInfoJson : Option OpsInfo → Json
+  | none => Json.null
+  | some i => Json.mkObj [("n", toJson i.n),
+      ("last", match i.last with | some o => opJson o | none => Json.null),
+      ("midSame", Json.bool i.midOnly),
+      ("lastSame", Json.bool i.lastSame)]
+
 def handle (j : Json) : Json :=
   match getStr? j "op" with
   | some "history" =>
@@ -53,21 +79,30 @@ def handle (j : Json) : Json :=
       match getStr? j "algo" with
       | some "new" => some exportNew
       | some "pinned" => some exportPinned
+      | some "ops" => some exportOps
       | _ => none
+    -- "ops" is optional; when the key is present it must be a boolean
+    let wantOps? : Option Bool :=
+      match j.getObjVal? "ops" with
+      | .ok _ => getBool? j "ops"
+      | .error _ => some false
     -- "paths" is optional; when the key is present it must decode
     let paths? : Option (List Nat) :=
       match j.getObjVal? "paths" with
       | .ok _ => getNatList? j "paths"
       | .error _ => some []
-    match exp?, (getArr? j "runs").bind (fun a => a.toList.mapM parseRun), paths? with
-    | some exp, some runs, some paths =>
-      let steps := (traceOn exp paths FS.empty runs).map fun (o, tgt, tmp, all) =>
+    match exp?, (getArr? j "runs").bind (fun a => a.toList.mapM parseRun), paths?, wantOps? with
+    | some exp, some runs, some paths, some wantOps =>
+      let infos : List (Option OpsInfo) :=
+        if wantOps then opsTrace FS.empty runs else runs.map fun _ => none
+      let steps := ((traceOn exp paths FS.empty runs).zip infos).map fun ((o, tgt, tmp, all), info) =>
         Json.mkObj ([("outcome", Json.str (outcomeStr o)), ("target", contentJson tgt), ("tmp", Json.bool tmp)] ++
           (if paths.isEmpty then [] else
             [("all", Json.arr (all.map fun (c, t) =>
-              Json.mkObj [("target", contentJson c), ("tmp", Json.bool t)]).toArray)]))
+              Json.mkObj [("target", contentJson c), ("tmp", Json.bool t)]).toArray)]) ++
+          (if wantOps then [("ops", opsInfoJson info)] else []))
       Json.mkObj [("steps", Json.arr steps.toArray)]
-    | _, _, _ => badOp
+    | _, _, _, _ => badOp
   | _ => badOp
 
 def main : IO Unit := serve handle
